@@ -13,7 +13,8 @@
 (*              fee   relayer multiplicator on record for the target chain *)
 (*                    (treasury; 0 = no record for that chain)             *)
 (*              perf  validator metrics record exists (metrix)             *)
-(*     Assign(sender, mev, t) = AddSmartContractExecutionToConsensus at    *)
+(*     Assign(chain, sender, mev, t) = AddSmartContractExecutionToConsensus *)
+(*     for the target chain "t" or the home chain "h" at                    *)
 (*     block time t:  score the snapshot members that have metrics and a   *)
 (*     fee record, keep those with an account on the chain (and the MEV    *)
 (*     trait if demanded), sort by score desc / address asc, take element  *)
@@ -44,32 +45,40 @@ CONSTANTS
   MaxQ             \* bound on the queue length (model checking / generation only)
 
 VARIABLES
-  cur,     \* [Vals -> [home : BOOLEAN, acct : 0..2, mev : BOOLEAN]]   acct: 0 none, 1 primary, 2 alternate address
-  snap,    \* [Vals -> [member : BOOLEAN, acct : 0..2, mev : BOOLEAN]]
-  fee,     \* [Vals -> {0} \cup FeeLevels]
+  cur,     \* [Vals -> [home : BOOLEAN, acct : 0..2, mevH : BOOLEAN, mevT : BOOLEAN]]
+           \*   home: account on the home chain "h" (active); acct: account on the target chain "t" (0 none,
+           \*   1 primary, 2 alternate address); mevH / mevT: MEV trait of the home / target chain ACCOUNT
+  snap,    \* [Vals -> [member : BOOLEAN, acct : 0..2, mevH : BOOLEAN, mevT : BOOLEAN]]
+  fee,     \* [Vals -> {0} \cup FeeLevels]   fee record for the target chain
+  feeH,    \* [Vals -> Nat]                  fee record for the home chain (never varied by the actions)
   perf,    \* [Vals -> BOOLEAN]
-  queue,   \* set of messages (unique ids; queue order = id order)
+  queue,   \* set of messages of the target chain's queue (unique ids; queue order = id order)
+  queueH,  \* logic calls assigned on the home chain's queue (ids from the same counter)
   nextId,
   nrows,   \* number of validators whose table row has been loaded (set-up phase)
   res      \* result of the last action
 
-vars == <<cur, snap, fee, perf, queue, nextId, nrows, res>>
-tabs == <<cur, snap, fee, perf>>
+vars == <<cur, snap, fee, feeH, perf, queue, queueH, nextId, nrows, res>>
+tabs == <<cur, snap, fee, feeH, perf>>
+Chains == {"t", "h"}
 
 N == Cardinality(Vals)
 Kinds == {"slc", "valset", "other"}      \* SubmitLogicCall / UpdateValset / any other evm message (UploadSmartContract)
 NoFees == <<0, 0, 0>>
-Row == [home : BOOLEAN, acct : 0..2, mev : BOOLEAN, fee : {0} \cup FeeLevels, perf : BOOLEAN]
-BaseRow == [home |-> TRUE, acct |-> 1, mev |-> FALSE, fee |-> BaseFee, perf |-> TRUE]
+Row == [home : BOOLEAN, acct : 0..2, mevH : BOOLEAN, mevT : BOOLEAN, fee : {0} \cup FeeLevels, perf : BOOLEAN]
+BaseRow == [home |-> TRUE, acct |-> 1, mevH |-> FALSE, mevT |-> FALSE, fee |-> BaseFee, perf |-> TRUE]
 
 MinOf(S) == CHOOSE x \in S : \A y \in S : x <= y
 MaxOf(S) == CHOOSE x \in S : \A y \in S : y <= x
 
-\* traits are attributes of the chain accounts: a validator without any account carries none
-CurOf(r) == [home |-> r.home, acct |-> r.acct, mev |-> r.mev /\ (r.home \/ r.acct # 0)]
+\* traits are attributes of the chain ACCOUNTS (ExternalChainInfo.Traits): no account, no trait
+CurOf(r) == [home |-> r.home, acct |-> r.acct, mevH |-> r.mevH /\ r.home, mevT |-> r.mevT /\ r.acct # 0]
 \* createNewSnapshot: bonded, unjailed validators that support all active chains, with a copy of their chain infos
-SnapOf(c) == [v \in Vals |-> IF c[v].home THEN [member |-> TRUE, acct |-> c[v].acct, mev |-> c[v].mev]
-                                        ELSE [member |-> FALSE, acct |-> 0, mev |-> FALSE]]
+SnapOf(c) == [v \in Vals |-> IF c[v].home THEN [member |-> TRUE, acct |-> c[v].acct, mevH |-> c[v].mevH, mevT |-> c[v].mevT]
+                                        ELSE [member |-> FALSE, acct |-> 0, mevH |-> FALSE, mevT |-> FALSE]]
+\* account (address id) and MEV trait of snapshot entry v ON CHAIN c
+AcctOn(sn, v, c) == IF c = "h" THEN (IF sn[v].member THEN 1 ELSE 0) ELSE sn[v].acct
+MevOn(sn, v, c) == IF c = "h" THEN sn[v].mevH ELSE sn[v].mevT
 
 Msg(id, kind, s, a, ra, ne) ==
   [id |-> id, kind |-> kind, sender |-> s, assignee |-> a, remote |-> ra, needsEst |-> ne,
@@ -81,27 +90,36 @@ Msg(id, kind, s, a, ra, ne) ==
 Members(sn) == {v \in Vals : sn[v].member}
 \* buildValidatorsInfos: snapshot members with a metrics record and a fee record for the chain
 Info(sn, fe, pe) == {v \in Members(sn) : pe[v] /\ fe[v] # 0}
-\* filterValidatorsForJob
-EligibleT(sn, fe, pe, mevReq) == {v \in Info(sn, fe, pe) : sn[v].acct # 0 /\ (mevReq => sn[v].mev)}
+\* filterValidatorsForJob: the account on the chain of the job, and the MEV trait OF THAT ACCOUNT if demanded
+\* (`fe` is the fee table of chain c)
+EligibleT(sn, fe, pe, c, mevReq) == {v \in Info(sn, fe, pe) : AcctOn(sn, v, c) # 0 /\ (mevReq => MevOn(sn, v, c))}
 \* the property's wording, conjunct by conjunct
-PickOK(sn, fe, pe, p, mevReq) ==
+PickOK(sn, fe, pe, c, p, mevReq) ==
   /\ sn[p].member
-  /\ sn[p].acct # 0
+  /\ AcctOn(sn, p, c) # 0
   /\ fe[p] # 0
   /\ pe[p]
-  /\ (mevReq => sn[p].mev)
+  /\ (mevReq => MevOn(sn, p, c))
 
 \* rankValidators: score = (1 - (fee-min)/(max-min)) + (feat-minFeat)/(maxFeat-minFeat), each term 0 if its
 \* window is a point (uptime, success rate, execution time are equal in the worlds considered: terms 0);
-\* multiplied by the fee span to stay in the integers.  The feature set score is the MEV trait at snapshot time.
-Feat(sn, v) == IF sn[v].mev THEN 1 ELSE 0
+\* multiplied by the two spans to stay in the integers.  The feature set (metrix.OnSnapshotBuilt) is the share of
+\* the validator's accounts that carry the MEV trait at snapshot time: 0, 1/2 or 1, here doubled.
+Feat2(sn, v) ==
+  LET n == 1 + (IF sn[v].acct # 0 THEN 1 ELSE 0)
+      k == (IF sn[v].mevH THEN 1 ELSE 0) + (IF sn[v].mevT THEN 1 ELSE 0)
+  IN  (2 * k) \div n
 ScoresT(sn, fe, pe) ==
   LET I == Info(sn, fe, pe)
       F == {fe[w] : w \in I}
+      G == {Feat2(sn, w) : w \in I}
       span == IF I = {} THEN 0 ELSE MaxOf(F) - MinOf(F)
-      featVaries == \E a, b \in I : Feat(sn, a) # Feat(sn, b)
-      unit == IF span > 0 THEN span ELSE 1
-  IN  [v \in Vals |-> (IF span > 0 /\ v \in I THEN MaxOf(F) - fe[v] ELSE 0) + (IF featVaries THEN Feat(sn, v) * unit ELSE 0)]
+      gspan == IF I = {} THEN 0 ELSE MaxOf(G) - MinOf(G)
+      uF == IF span > 0 THEN span ELSE 1
+      uG == IF gspan > 0 THEN gspan ELSE 1
+  IN  [v \in Vals |-> IF v \notin I THEN 0
+                      ELSE (IF span > 0 THEN (MaxOf(F) - fe[v]) * uG ELSE 0)
+                         + (IF gspan > 0 THEN (Feat2(sn, v) - MinOf(G)) * uF ELSE 0)]
 \* sort order: score descending, then address ascending
 Better(sc, a, b) == sc[a] > sc[b] \/ (sc[a] = sc[b] /\ a < b)
 
@@ -110,13 +128,14 @@ RankSeq(sc, S) ==
   IF S = {} THEN <<>>
   ELSE LET b == CHOOSE x \in S : \A y \in S \ {x} : Better(sc, x, y)
        IN  <<b>> \o RankSeq(sc, S \ {b})
-RankedT(sn, fe, pe, mevReq) == RankSeq(ScoresT(sn, fe, pe), EligibleT(sn, fe, pe, mevReq))
+RankedT(sn, fe, pe, c, mevReq) == RankSeq(ScoresT(sn, fe, pe), EligibleT(sn, fe, pe, c, mevReq))
 \* winnerIdx = blocktime mod min(len, topValidatorPoolSize)
 PickFrom(r, t) == r[(t % (IF Len(r) < TopK THEN Len(r) ELSE TopK)) + 1]
-PickT(sn, fe, pe, mevReq, t) == PickFrom(RankedT(sn, fe, pe, mevReq), t)
+PickT(sn, fe, pe, c, mevReq, t) == PickFrom(RankedT(sn, fe, pe, c, mevReq), t)
 
-Eligible(mevReq) == EligibleT(snap, fee, perf, mevReq)
-Pick(mevReq, t) == PickT(snap, fee, perf, mevReq, t)
+FeeTab(c) == IF c = "h" THEN feeH ELSE fee
+Eligible(c, mevReq) == EligibleT(snap, FeeTab(c), perf, c, mevReq)
+Pick(c, mevReq, t) == PickT(snap, FeeTab(c), perf, c, mevReq, t)
 
 -----------------------------------------------------------------------------
 (* (b) the relay gate, parametrised by the queue *)
@@ -183,7 +202,8 @@ Init ==
   /\ snap = SnapOf([v \in Vals |-> CurOf(BaseRow)])
   /\ fee = [v \in Vals |-> BaseFee]
   /\ perf = [v \in Vals |-> TRUE]
-  /\ queue = {} /\ nextId = 1 /\ nrows = 0 /\ res = "init"
+  /\ feeH = [v \in Vals |-> BaseFee]
+  /\ queue = {} /\ queueH = {} /\ nextId = 1 /\ nrows = 0 /\ res = "init"
 
 (* tables: written through the keepers, then the snapshot is built, then metrics records are dropped *)
 Setup(T) ==
@@ -193,7 +213,7 @@ Setup(T) ==
   /\ fee' = [v \in Vals |-> T[v].fee]
   /\ perf' = [v \in Vals |-> T[v].perf]
   /\ nrows' = N /\ res' = "setup"
-  /\ UNCHANGED <<queue, nextId>>
+  /\ UNCHANGED <<queue, queueH, feeH, nextId>>
 
 \* the same, validator by validator (exhaustive enumeration of the tables)
 SetRow(v, r) ==
@@ -203,13 +223,13 @@ SetRow(v, r) ==
   /\ fee' = [fee EXCEPT ![v] = r.fee]
   /\ perf' = [perf EXCEPT ![v] = r.perf]
   /\ nrows' = v /\ res' = "setup"
-  /\ UNCHANGED <<queue, nextId>>
+  /\ UNCHANGED <<queue, queueH, feeH, nextId>>
 
-\* a validator changes its registration on the target chain; the snapshot is not rebuilt
-Rereg(v, a, mv) ==
-  /\ cur' = [cur EXCEPT ![v].acct = a, ![v].mev = mv /\ (cur[v].home \/ a # 0)]
+\* a validator changes its registration (target chain account, traits of its accounts); the snapshot is not rebuilt
+Rereg(v, a, mh, mt) ==
+  /\ cur' = [cur EXCEPT ![v].acct = a, ![v].mevH = mh /\ cur[v].home, ![v].mevT = mt /\ a # 0]
   /\ res' = "rereg"
-  /\ UNCHANGED <<snap, fee, perf, queue, nextId, nrows>>
+  /\ UNCHANGED <<snap, fee, feeH, perf, queue, queueH, nextId, nrows>>
 
 \* TriggerSnapshotBuild: installed only if it differs; metrix.OnSnapshotBuilt (re)creates the members' records
 Resnap ==
@@ -217,13 +237,15 @@ Resnap ==
      ELSE /\ snap' = SnapOf(cur)
           /\ perf' = [v \in Vals |-> perf[v] \/ cur[v].home]
   /\ res' = "resnap"
-  /\ UNCHANGED <<cur, fee, queue, nextId, nrows>>
+  /\ UNCHANGED <<cur, fee, feeH, queue, queueH, nextId, nrows>>
 
-Assign(s, mevReq, t) ==
-  /\ IF Eligible(mevReq) = {}
-     THEN /\ res' = "noeligible" /\ UNCHANGED <<queue, nextId>>
-     ELSE LET p == Pick(mevReq, t) IN
-          /\ queue' = queue \cup {Msg(nextId, "slc", s, p, snap[p].acct, TRUE)}
+Assign(c, s, mevReq, t) ==
+  /\ IF Eligible(c, mevReq) = {}
+     THEN /\ res' = "noeligible" /\ UNCHANGED <<queue, queueH, nextId>>
+     ELSE LET p == Pick(c, mevReq, t)
+              m == Msg(nextId, "slc", s, p, AcctOn(snap, p, c), TRUE) IN
+          /\ IF c = "t" THEN queue' = queue \cup {m} /\ UNCHANGED queueH
+                        ELSE queueH' = queueH \cup {m} /\ UNCHANGED queue
           /\ nextId' = nextId + 1
           /\ res' = "assigned"
   /\ UNCHANGED <<tabs, nrows>>
@@ -232,7 +254,7 @@ Assign(s, mevReq, t) ==
 Put(kind, s, a, ne) ==
   /\ queue' = queue \cup {Msg(nextId, kind, s, a, 1, ne)}
   /\ nextId' = nextId + 1 /\ res' = "put"
-  /\ UNCHANGED <<tabs, nrows>>
+  /\ UNCHANGED <<tabs, nrows, queueH>>
 
 \* pure state transformers (used for composite generator steps as well)
 EstimateQ(Q, v, id, g) ==
@@ -244,30 +266,30 @@ FailQ(Q, id) == {IF m.id = id /\ ~m.pad /\ ~m.err THEN [m EXCEPT !.err = TRUE] E
 Estimate(v, id, g) ==
   /\ IF EstimateOK(queue, v, id) THEN queue' = EstimateQ(queue, v, id, g) /\ res' = "ok"
      ELSE UNCHANGED queue /\ res' = "fail"
-  /\ UNCHANGED <<tabs, nextId, nrows>>
+  /\ UNCHANGED <<tabs, nextId, nrows, queueH>>
 
 EndBlock ==
   /\ queue' = ElectAllT(snap, fee, queue)
   /\ res' = "eb"
-  /\ UNCHANGED <<tabs, nextId, nrows>>
+  /\ UNCHANGED <<tabs, nextId, nrows, queueH>>
 
 Deliver(id) ==
   /\ IF \E m \in queue : m.id = id THEN queue' = DeliverQ(queue, id) /\ res' = "ok"
      ELSE UNCHANGED queue /\ res' = "fail"
-  /\ UNCHANGED <<tabs, nextId, nrows>>
+  /\ UNCHANGED <<tabs, nextId, nrows, queueH>>
 
 Fail(id) ==
   /\ IF \E m \in queue : m.id = id THEN queue' = FailQ(queue, id) /\ res' = "ok"
      ELSE UNCHANGED queue /\ res' = "fail"
-  /\ UNCHANGED <<tabs, nextId, nrows>>
+  /\ UNCHANGED <<tabs, nextId, nrows, queueH>>
 
-Query == res' = "query" /\ UNCHANGED <<tabs, queue, nextId, nrows>>
+Query == res' = "query" /\ UNCHANGED <<tabs, queue, queueH, nextId, nrows>>
 
 Next ==
   \/ \E T \in [Vals -> Row] : Setup(T)
-  \/ \E v \in Vals, a \in 0..2, mv \in BOOLEAN : Rereg(v, a, mv)
+  \/ \E v \in Vals, a \in 0..2, mh \in BOOLEAN, mt \in BOOLEAN : Rereg(v, a, mh, mt)
   \/ Resnap
-  \/ \E s \in Senders, mv \in BOOLEAN, t \in Times : Assign(s, mv, t)
+  \/ \E c \in Chains, s \in Senders, mv \in BOOLEAN, t \in Times : Assign(c, s, mv, t)
   \/ \E k \in Kinds, s \in Senders \cup {0}, a \in Vals, ne \in BOOLEAN : Put(k, s, a, ne)
   \/ \E v \in Vals, id \in 1..nextId, g \in Gases : Estimate(v, id, g)
   \/ EndBlock
@@ -279,35 +301,41 @@ Spec == Init /\ [][Next]_vars
 -----------------------------------------------------------------------------
 (* Properties *)
 TypeOK ==
-  /\ \A m, o \in queue : m.id = o.id => m = o
-  /\ \A m \in queue : m.id < nextId /\ m.kind \in Kinds
+  /\ \A m, o \in queue \cup queueH : m.id = o.id => m = o
+  /\ queue \cap queueH = {}
+  /\ \A m \in queue \cup queueH : m.id < nextId /\ m.kind \in Kinds
   /\ \A v \in Vals : ~snap[v].member => snap[v].acct = 0
 
-\* (a) for every request that could arrive now
-Ranked(mevReq) == RankedT(snap, fee, perf, mevReq)
+\* (a) for every request (chain, MEV flag, block time) that could arrive now
+Ranked(c, mevReq) == RankedT(snap, FeeTab(c), perf, c, mevReq)
 AssigneeEligible ==
-  \A mv \in BOOLEAN : LET r == Ranked(mv) IN
-    r # <<>> => \A t \in Times : PickOK(snap, fee, perf, PickFrom(r, t), mv)
+  \A c \in Chains, mv \in BOOLEAN : LET r == Ranked(c, mv) IN
+    r # <<>> => \A t \in Times : PickOK(snap, FeeTab(c), perf, c, PickFrom(r, t), mv)
 \* the ranking is sorted, holds each eligible validator once, and the pick is one of the best min(TopK, n)
 PickAmongBest ==
-  \A mv \in BOOLEAN : LET r == Ranked(mv)  sc == ScoresT(snap, fee, perf) IN
-    /\ Len(r) = Cardinality(Eligible(mv)) /\ {r[i] : i \in DOMAIN r} = Eligible(mv)
+  \A c \in Chains, mv \in BOOLEAN : LET r == Ranked(c, mv)  sc == ScoresT(snap, FeeTab(c), perf) IN
+    /\ Len(r) = Cardinality(Eligible(c, mv)) /\ {r[i] : i \in DOMAIN r} = Eligible(c, mv)
     /\ \A i, j \in DOMAIN r : i < j => Better(sc, r[i], r[j])
     /\ r # <<>> => \A t \in Times :
-          Cardinality({w \in Eligible(mv) : Better(sc, w, PickFrom(r, t))}) < TopK
+          Cardinality({w \in Eligible(c, mv) : Better(sc, w, PickFrom(r, t))}) < TopK
 \* every one of the best min(TopK, n) is picked at some block time
 PickSpreads ==
-  \A mv \in BOOLEAN : LET r == Ranked(mv) IN
+  \A c \in Chains, mv \in BOOLEAN : LET r == Ranked(c, mv) IN
     \A i \in DOMAIN r : i <= TopK => \E t \in Times : PickFrom(r, t) = r[i]
 NoEligibleMeansNone ==
-  \A mv \in BOOLEAN : (Eligible(mv) = {}) <=> ~\E p \in Vals : PickOK(snap, fee, perf, p, mv)
-\* action level: what an Assign step does to the queue
+  \A c \in Chains, mv \in BOOLEAN : (Eligible(c, mv) = {}) <=> ~\E p \in Vals : PickOK(snap, FeeTab(c), perf, c, p, mv)
+\* a trait carried by the account on the OTHER chain never qualifies
+MevIsPerChain ==
+  \A c \in Chains : \A v \in Eligible(c, TRUE) : MevOn(snap, v, c)
+\* action level: what an Assign step does to the queues
 RemoteAddressFromSnapshot ==
   [][res' = "assigned" =>
-       /\ Cardinality(queue' \ queue) = 1
-       /\ \A m \in queue' \ queue : /\ m.assignee \in Vals /\ m.remote # 0 /\ m.remote = snap[m.assignee].acct
-                                    /\ m.kind = "slc" /\ m.needsEst /\ m.est = 0 /\ m.fees = NoFees]_vars
-NoEligibleNoEnqueue == [][res' = "noeligible" => queue' = queue /\ nextId' = nextId]_vars
+       LET nt == queue' \ queue  nh == queueH' \ queueH IN
+       /\ Cardinality(nt \cup nh) = 1
+       /\ \A m \in nt : m.assignee \in Vals /\ m.remote # 0 /\ m.remote = AcctOn(snap, m.assignee, "t")
+       /\ \A m \in nh : m.assignee \in Vals /\ m.remote # 0 /\ m.remote = AcctOn(snap, m.assignee, "h")
+       /\ \A m \in nt \cup nh : m.kind = "slc" /\ m.needsEst /\ m.est = 0 /\ m.fees = NoFees]_vars
+NoEligibleNoEnqueue == [][res' = "noeligible" => queue' = queue /\ queueH' = queueH /\ nextId' = nextId]_vars
 
 \* (b) for every validator that could ask now; `off` = what the coded loop offers
 MsgOfQ(Q, id) == CHOOSE m \in Q : m.id = id
